@@ -203,4 +203,15 @@ def Writable (iv : Name → Bool) (c : Choices) (ds : List WDoc) : Prop := writa
 instance (iv : Name → Bool) (c : Choices) (ds : List WDoc) : Decidable (Writable iv c ds) := by
   unfold Writable; infer_instance
 
+/-! ### callback streams up to the cutting of character data -/
+
+/-- adjacent `data` callbacks joined: the tokenizer reports literal character data in maximal chunks, `emit` in the
+    chunks of the choice `cut`; the builder cannot tell (`Props/C03 data_chunking_irrelevant`) -/
+def mergeData : List SEv → List SEv
+  | [] => []
+  | e :: rest =>
+    match e, mergeData rest with
+    | .data a, .data b :: r => .data (a ++ b) :: r
+    | e, r => e :: r
+
 end BS.WriterText
